@@ -14,6 +14,8 @@ CLAIMS = {
          "Not decided: third-party decoders, goroutine leaks/channel protocol, reflect settability, stack depth; functions not listed in the evidence are not covered.", "6/C07"),
  "C10": ("Frame and freshness proofs for the array side of Merge: fields.append and the array strategies write only destination locations or fresh objects (frame obligation at every store and callee frame) and every stored element is a fresh copy.",
          "Dictionary side (mergeConfigDict), cfgSub.cpy and normalizeValue re-parenting not yet under contract; induction over depth stated.", "6/C10"),
+ "C15": ("Proof of the structural part of the representation invariant for copies: every value constructor stores the context it is given, every primitive cpy returns a fresh value of the same type with the requested context (refinement of the interface contract), and cfgSub.cpy returns a fresh node whose dictionary and list children are fresh copies whose parent is the new node and whose field names are those of the originals (loop invariants over a map range in arbitrary order and over the list).",
+         "Known gaps (not claimed): delAt does not renumber, SetContext on a value receiver, FlattenedKeys, CompareConfigs and Path()/Parent() are not yet under contract; histories by stated induction.", "6/C15"),
  "C12": ("Data structure against abstract view: fields.get/set/del/setAt/delAt with full-view postconditions and frames, address parsing (parsePath/parsePathIdx/parseField: at least one field, one field per segment) and the walkers cfgPath.Has/GetValue, idxField.GetValue, proved for all inputs; induction over operation histories is stated.",
          "strings.Split contract trusted (ghost splitLen/splitAt); cfgPath.SetValue/Remove and typed getters/setters not yet under contract.", "6/C12"),
  "C19": ("Proof of the collector state machine: NewCollector stores config, nil error and the flag's options; Collector.Add keeps the first error (state unchanged afterwards), records a failing argument, otherwise performs exactly one Merge of the argument with the collector's options.",
